@@ -3,7 +3,7 @@ from __future__ import annotations
 
 import numpy as np
 
-from vf import envs, episodes, histprop, specwalk
+from vf import bulk, envs, episodes, histprop, hyp, specwalk
 from vf.runner import Ctx
 
 PROPERTY = "C01"
@@ -124,7 +124,59 @@ def work_items(tier, flt):
             rest = [e for e in envs.entries(env) if (env, e) not in have]
             if rest:
                 items.append({"kind": "abstract", "env": env, "entries": rest, "entry": "+".join(rest)[:60], "cost": 0.5 * len(rest)})
+    items.extend(bulk.sweep_items(tier, flt))
     return items
+
+
+def _sweep(ctx, item, seed):
+    """Bulk sweep (vf/bulk.py): Hypothesis draws the base key and the policy salt of each batch; the bound part of the
+    spec check runs on the device over every timestep of every episode; flagged episodes are replayed on the host
+    under Mon, which decides."""
+    from hypothesis import strategies as st
+
+    b = envs.bundle(item["env"], item["entry"])
+    env = b.env
+    specs3 = (("observation", env.observation_spec), ("reward", env.reward_spec), ("discount", env.discount_spec))
+
+    if not hasattr(b, "_c01_flag"):
+        def flag(s, ts, is_reset):
+            import jax.numpy as jnp
+
+            bad, touch = jnp.asarray(False), jnp.asarray(False)
+            for name, spec in specs3:
+                b_, t_ = bulk.out_of_bounds(spec, getattr(ts, name), name)
+                bad, touch = bad | b_, touch | (t_ if name == "observation" else False)
+            return bad, touch
+
+        b._c01_flag = flag
+
+    def one(key, salt):
+        with ctx.guard(b.name, {"env": b.name, "entry": b.entry, "overrides": {}, "key": list(key), "actions": [],
+                                "stage": "sweep", "salt": salt}):
+            first, n, aux, kws, acts = bulk.sweep(b, key, salt, item["episodes"], item["steps"], b._c01_flag,
+                                                      item.get("policy", "legal_hash"))
+        ctx.evals(int(n.sum()))
+        ctx.count("sweep_episodes", len(n))
+        ctx.count("sweep_timesteps", int(n.sum()))
+        ctx.count("sweep_timesteps_touching_a_bound", int(aux.sum()))
+        ctx.count("sweep_episodes_ended", int((n <= item["steps"]).sum()))
+        ctx.nontrivial(b.name, b.entry, "sweep", int(n.max()), int(aux.sum() > 0))
+        for e in np.flatnonzero(first >= 0)[:3]:
+            kw = [int(kws[e][0]), int(kws[e][1])]
+            actions = [np.asarray(a) for a in acts[e][: max(int(first[e]), 0)]]
+            rec = episodes.Recorder(ctx, b, kw)
+            before = len(ctx.failures)
+            with ctx.guard(b.name, rec.case(), size=10**6):
+                episodes.run_actions(b, rec, [a.tolist() for a in actions], Mon(b, ctx, None))
+            ctx.count("sweep_flagged")
+            if len(ctx.failures) == before:
+                ctx.count("sweep_unconfirmed")
+        if len(ctx.samples) < 2:
+            ctx.sample({"env": b.name, "entry": b.entry, "sweep_base_key": list(key), "salt": salt,
+                        "episodes": int(len(n)), "timesteps": int(n.sum()), "longest": int(n.max()),
+                        "touching": int(aux.sum())})
+
+    hyp.drive({"key": episodes.keys(), "salt": st.integers(0, 2**20)}, one, seed, item["batches"])
 
 
 def _abstract_checks(ctx, env_name, entry):
@@ -187,6 +239,11 @@ def run_item(item, seed, tier):
         ctx = Ctx(PROPERTY, item)
         for e in item["entries"]:
             _abstract_checks(ctx, item["env"], e)
+        return ctx.result()
+    if item.get("kind") == "sweep":
+        ctx = Ctx(PROPERTY, item)
+        with ctx.guard(item["env"], {"env": item["env"], "entry": item["entry"], "stage": "construct"}):
+            _sweep(ctx, item, seed)
         return ctx.result()
     res = histprop.run_item(PROPERTY, item, seed, Mon, max_len=60, setup=_static_checks,
                             per_episode=_per_episode, deep=True)
